@@ -102,9 +102,11 @@ impl Property for C05 {
                 _ => None,
             };
             let ih = *rng.pick(&ihs);
-            let target = match rng.below(3) {
+            let target = match rng.below(4) {
                 0 => own,
                 1 => krpc::flip_bit(&own, rng.below(160) as usize),
+                // an id for which peers are stored: a find_node reply must still carry no values
+                2 => ih,
                 _ => rng.id20(),
             };
             let mut args = Val::dict().with("id", Val::bytes(&pid));
